@@ -1,6 +1,8 @@
 package props
 
 import (
+	"net"
+	"strings"
 	"sync"
 	"time"
 
@@ -25,6 +27,10 @@ type simPKI struct {
 	Client            map[string]*kit.Cert
 	ClientUntrusted   map[string]*kit.Cert
 	ClientShort       map[string]*kit.Cert
+	ShortRoot, ShortInter *kit.Cert         // root valid 1990-01-01 .. 2000-02-01, everything below it valid until 2090
+	ServerShortRoot   map[string]*kit.Cert // leaf under ShortRoot/ShortInter
+	ServerIP          map[string]*kit.Cert // leaf with an IP SAN (10.1.2.3) besides the DNS name
+	ShortRootPool     *zx509.CertPool
 	RootPool, BadPool *zx509.CertPool
 	InterPool         *zx509.CertPool
 }
@@ -49,15 +55,19 @@ func zparse(der []byte) *zx509.Certificate {
 func pki() *simPKI {
 	pkiOnce.Do(func() {
 		p := &simPKI{Server: map[string]*kit.Cert{}, ServerUntrusted: map[string]*kit.Cert{}, ServerWrongName: map[string]*kit.Cert{},
-			ServerShort: map[string]*kit.Cert{}, Client: map[string]*kit.Cert{}, ClientUntrusted: map[string]*kit.Cert{}, ClientShort: map[string]*kit.Cert{}}
+			ServerShort: map[string]*kit.Cert{}, ServerShortRoot: map[string]*kit.Cert{}, ServerIP: map[string]*kit.Cert{}, Client: map[string]*kit.Cert{}, ClientUntrusted: map[string]*kit.Cert{}, ClientShort: map[string]*kit.Cert{}}
 		p.Root = kit.MakeCert(kit.CertSpec{Name: "Sim Root CA", Key: "p256_0", IsCA: true, MaxPathLen: -1, Serial: 1})
 		p.Inter = kit.MakeCert(kit.CertSpec{Name: "Sim Intermediate CA", Key: "rsa3", IsCA: true, MaxPathLen: 0, Issuer: p.Root, Serial: 2})
 		p.BadRoot = kit.MakeCert(kit.CertSpec{Name: "Untrusted Root CA", Key: "p256_4", IsCA: true, MaxPathLen: -1, Serial: 3})
 		short0 := time.Date(1999, 12, 1, 0, 0, 0, 0, time.UTC)
 		short1 := time.Date(2000, 2, 1, 0, 0, 0, 0, time.UTC)
+		p.ShortRoot = kit.MakeCert(kit.CertSpec{Name: "Short-lived Root CA", Key: "p256_11", IsCA: true, MaxPathLen: -1, Serial: 4, NotAfter: short1})
+		p.ShortInter = kit.MakeCert(kit.CertSpec{Name: "Inter under short-lived root", Key: "rsa4", IsCA: true, MaxPathLen: 0, Issuer: p.ShortRoot, Serial: 5})
 		n := int64(10)
 		for _, kind := range []string{"rsa", "p256", "p384", "ed"} {
 			n += 10
+			p.ServerShortRoot[kind] = kit.MakeCert(kit.CertSpec{Name: serverName, Key: keyOfKind[kind], Issuer: p.ShortInter, DNSNames: []string{serverName}, Serial: n + 7})
+			p.ServerIP[kind] = kit.MakeCert(kit.CertSpec{Name: serverName, Key: keyOfKind[kind], Issuer: p.Inter, DNSNames: []string{serverName}, IPs: []net.IP{net.ParseIP("10.1.2.3")}, Serial: n + 8})
 			p.Server[kind] = kit.MakeCert(kit.CertSpec{Name: serverName, Key: keyOfKind[kind], Issuer: p.Inter, DNSNames: []string{serverName}, Serial: n})
 			p.ServerUntrusted[kind] = kit.MakeCert(kit.CertSpec{Name: serverName, Key: keyOfKind[kind], Issuer: p.BadRoot, DNSNames: []string{serverName}, Serial: n + 1})
 			p.ServerWrongName[kind] = kit.MakeCert(kit.CertSpec{Name: "other.sim.test", Key: keyOfKind[kind], Issuer: p.Inter, DNSNames: []string{"other.sim.test"}, Serial: n + 2})
@@ -68,6 +78,8 @@ func pki() *simPKI {
 		}
 		p.RootPool = zx509.NewCertPool()
 		p.RootPool.AddCert(zparse(p.Root.DER))
+		p.ShortRootPool = zx509.NewCertPool()
+		p.ShortRootPool.AddCert(zparse(p.ShortRoot.DER))
 		p.BadPool = zx509.NewCertPool()
 		p.BadPool.AddCert(zparse(p.BadRoot.DER))
 		p.InterPool = zx509.NewCertPool()
@@ -105,6 +117,8 @@ type EndCfg struct {
 	NoDynRec     bool     `json:"no_dynrec,omitempty"`
 	NoBEAST      bool     `json:"no_beast,omitempty"`
 	EMS          bool     `json:"ems,omitempty"`
+	SkipVerify   bool     `json:"skip_verify,omitempty"` // client: InsecureSkipVerify
+	SigHashes    []uint16 `json:"sig_hashes,omitempty"`  // client: Config.SignatureAndHashes as hash<<8|signature
 }
 
 type NetCfg struct {
@@ -114,15 +128,16 @@ type NetCfg struct {
 	LatMaxUs   int  `json:"lat_max_us"`
 	ShortReads bool `json:"short_reads"`
 	Window     int  `json:"window,omitempty"`
+	EOFData    bool `json:"eof_with_data,omitempty"`
 }
 
 func (n NetCfg) params() kit.NetParams {
 	return kit.NetParams{SegMode: n.SegMode, MaxSeg: n.MaxSeg, LatencyMin: time.Duration(n.LatMinUs) * time.Microsecond,
-		LatencyMax: time.Duration(n.LatMaxUs) * time.Microsecond, ShortReads: n.ShortReads, Window: n.Window}
+		LatencyMax: time.Duration(n.LatMaxUs) * time.Microsecond, ShortReads: n.ShortReads, Window: n.Window, EOFWithData: n.EOFData}
 }
 
 func genNet(r *kit.Rng) NetCfg {
-	n := NetCfg{SegMode: r.Pick([]int{3, 5, 1}), ShortReads: r.Chance(1, 2)}
+	n := NetCfg{SegMode: r.Pick([]int{3, 5, 1}), ShortReads: r.Chance(1, 2), EOFData: r.Chance(1, 3)}
 	n.MaxSeg = []int{0, 1, 7, 100, 536, 1460, 16384}[r.Intn(7)]
 	if n.SegMode == 1 && n.MaxSeg == 1 {
 		n.MaxSeg = 3
@@ -187,6 +202,10 @@ func clientConfig(e EndCfg, s *kit.Sim, rng *kit.Rng) *tls.Config {
 		Rand:                        kit.NewReader(rng),
 		Time:                        s.Now,
 	}
+	c.InsecureSkipVerify = e.SkipVerify
+	for _, sh := range e.SigHashes {
+		c.SignatureAndHashes = append(c.SignatureAndHashes, tls.SigAndHash{Signature: uint8(sh), Hash: uint8(sh >> 8)})
+	}
 	if e.ClientCert != "" {
 		c.Certificates = []tls.Certificate{tlsCert(p.Client[e.ClientCert], true, clientKeyOfKind[e.ClientCert])}
 	}
@@ -213,6 +232,15 @@ func newSimRun(seed uint64, tape []int, keepLog bool) *simRun {
 }
 
 func finishOutcome(o *Outcome, s *kit.Sim) {
+	if s.StepCapHit || s.TimeCapHit {
+		// The per-run step / simulated-time cap is a bound of the harness, not a verdict about the code: a run
+		// that was cut off (and whose tasks were aborted) is inconclusive. Only panics and the explicit
+		// "calls did not return" oracles of C32/C34 (whose caps are far above what a correct run needs) stand.
+		if o.Fail != nil && !strings.HasSuffix(o.Fail.Oracle, ".panic") && !strings.HasSuffix(o.Fail.Oracle, ".noreturn") {
+			o.Fail = nil
+		}
+		o.count("probe.inconclusive_run_hit_cap", 1)
+	}
 	o.LogHash = s.LogHash()
 	o.SimTime += s.Elapsed()
 	o.Steps += s.Steps
